@@ -1,5 +1,22 @@
 package main
 
+// T2: fact extraction. Each fact is a small, shape-guarded reading of the Go
+// AST: a constant, the operator of a named comparison, a lock mode, the order
+// of two statements, a channel capacity... When the code around a fact no
+// longer has the recognised shape the fact is emitted as `unknown` (for
+// enumerations) or with an `unknown:` note, and the Lean guard that depends
+// on it fails.
+
+import (
+	"fmt"
+	"go/ast"
+	"go/parser"
+	"go/token"
+	"path/filepath"
+	"strconv"
+	"strings"
+)
+
 type fact struct {
 	Type string // Lean type
 	Lean string // Lean value
@@ -8,20 +25,233 @@ type fact struct {
 
 func extractFacts(repo string) map[string]fact {
 	fs := map[string]fact{}
-	ex := &factExtractor{repo: repo, out: fs}
-	ex.run()
+	ex := &factExtractor{repo: repo, out: fs, files: map[string]*ast.File{}, fset: token.NewFileSet()}
+	for _, f := range factFuncs {
+		f(ex)
+	}
 	return fs
 }
 
 type factExtractor struct {
-	repo string
-	out  map[string]fact
-}
-
-func (ex *factExtractor) run() {
-	for _, f := range factFuncs {
-		f(ex)
-	}
+	repo  string
+	out   map[string]fact
+	files map[string]*ast.File
+	fset  *token.FileSet
 }
 
 var factFuncs []func(*factExtractor)
+
+func (ex *factExtractor) file(rel string) *ast.File {
+	if f, ok := ex.files[rel]; ok {
+		return f
+	}
+	f, err := parser.ParseFile(ex.fset, filepath.Join(ex.repo, rel), nil, parser.ParseComments)
+	if err != nil {
+		f = nil
+	}
+	ex.files[rel] = f
+	return f
+}
+
+func (ex *factExtractor) str(n ast.Node) string {
+	tr := translator{fset: ex.fset}
+	return tr.str(n)
+}
+
+// fn finds a function or method declaration. recv "" = plain function.
+func (ex *factExtractor) fn(rel, recv, name string) *ast.FuncDecl {
+	f := ex.file(rel)
+	if f == nil {
+		return nil
+	}
+	for _, d := range f.Decls {
+		fd, ok := d.(*ast.FuncDecl)
+		if !ok || fd.Name.Name != name || fd.Body == nil {
+			continue
+		}
+		r := ""
+		if fd.Recv != nil && len(fd.Recv.List) > 0 {
+			r = strings.TrimPrefix(ex.str(fd.Recv.List[0].Type), "*")
+			if i := strings.Index(r, "["); i >= 0 {
+				r = r[:i]
+			}
+		}
+		if r == recv {
+			return fd
+		}
+	}
+	return nil
+}
+
+func (ex *factExtractor) setNat(name string, v int64, ok bool, note string) {
+	if !ok {
+		ex.out[name] = fact{Type: "Option Nat", Lean: "none", Note: "unknown: " + note}
+		return
+	}
+	ex.out[name] = fact{Type: "Option Nat", Lean: fmt.Sprintf("some %d", v), Note: note}
+}
+
+func (ex *factExtractor) setBool(name string, v, ok bool, note string) {
+	if !ok {
+		ex.out[name] = fact{Type: "Option Bool", Lean: "none", Note: "unknown: " + note}
+		return
+	}
+	ex.out[name] = fact{Type: "Option Bool", Lean: fmt.Sprintf("some %v", v), Note: note}
+}
+
+func (ex *factExtractor) setCmp(name string, op token.Token, ok bool, note string) {
+	m := map[token.Token]string{token.LSS: ".lt", token.LEQ: ".le", token.GTR: ".gt", token.GEQ: ".ge", token.EQL: ".eq", token.NEQ: ".ne"}
+	v, known := m[op]
+	if !ok || !known {
+		ex.out[name] = fact{Type: "Base.Cmp", Lean: ".unknown", Note: "unknown: " + note}
+		return
+	}
+	ex.out[name] = fact{Type: "Base.Cmp", Lean: v, Note: note}
+}
+
+func (ex *factExtractor) setRaw(name, typ, val, note string) {
+	ex.out[name] = fact{Type: typ, Lean: val, Note: note}
+}
+
+// intLit evaluates an integer literal or a simple constant expression
+// (literals combined with * + - <<, and time.Second-style units given in units).
+func (ex *factExtractor) intLit(e ast.Expr, units map[string]int64) (int64, bool) {
+	switch x := e.(type) {
+	case *ast.BasicLit:
+		if x.Kind == token.INT {
+			v, err := strconv.ParseInt(x.Value, 0, 64)
+			return v, err == nil
+		}
+	case *ast.ParenExpr:
+		return ex.intLit(x.X, units)
+	case *ast.Ident, *ast.SelectorExpr:
+		if v, ok := units[ex.str(e)]; ok {
+			return v, true
+		}
+	case *ast.BinaryExpr:
+		a, ok1 := ex.intLit(x.X, units)
+		b, ok2 := ex.intLit(x.Y, units)
+		if ok1 && ok2 {
+			switch x.Op {
+			case token.MUL:
+				return a * b, true
+			case token.ADD:
+				return a + b, true
+			case token.SUB:
+				return a - b, true
+			case token.SHL:
+				return a << uint(b), true
+			}
+		}
+	}
+	return 0, false
+}
+
+// constIn finds `const name = <int>` (or `name := <int>`) inside node.
+func (ex *factExtractor) constIn(node ast.Node, name string, units map[string]int64) (int64, bool) {
+	var val int64
+	found := 0
+	ast.Inspect(node, func(n ast.Node) bool {
+		switch x := n.(type) {
+		case *ast.ValueSpec:
+			for i, id := range x.Names {
+				if id.Name == name && i < len(x.Values) {
+					if v, ok := ex.intLit(x.Values[i], units); ok {
+						val = v
+						found++
+					} else {
+						found += 100
+					}
+				}
+			}
+		}
+		return true
+	})
+	return val, found == 1
+}
+
+// pkgConst finds a package-level constant in a file.
+func (ex *factExtractor) pkgConst(rel, name string, units map[string]int64) (int64, bool) {
+	f := ex.file(rel)
+	if f == nil {
+		return 0, false
+	}
+	for _, d := range f.Decls {
+		if gd, ok := d.(*ast.GenDecl); ok && gd.Tok == token.CONST {
+			if v, ok := ex.constIn(gd, name, units); ok {
+				return v, true
+			}
+		}
+	}
+	return 0, false
+}
+
+// caseClause finds the clause of a `switch tag` whose list contains the string literal lit.
+func (ex *factExtractor) caseClause(body ast.Node, tag, lit string) *ast.CaseClause {
+	var res *ast.CaseClause
+	ast.Inspect(body, func(n ast.Node) bool {
+		sw, ok := n.(*ast.SwitchStmt)
+		if !ok || sw.Tag == nil || ex.str(sw.Tag) != tag {
+			return true
+		}
+		for _, c := range sw.Body.List {
+			cc := c.(*ast.CaseClause)
+			for _, e := range cc.List {
+				if ex.str(e) == strconv.Quote(lit) {
+					res = cc
+				}
+			}
+		}
+		return true
+	})
+	return res
+}
+
+// findCond returns the first binary comparison inside node whose printed
+// operands are (lhs, rhs).
+func (ex *factExtractor) findCmp(node ast.Node, lhs, rhs string) (token.Token, bool) {
+	var op token.Token
+	n := 0
+	ast.Inspect(node, func(x ast.Node) bool {
+		if b, ok := x.(*ast.BinaryExpr); ok {
+			if ex.str(b.X) == lhs && ex.str(b.Y) == rhs {
+				op = b.Op
+				n++
+			}
+		}
+		return true
+	})
+	return op, n == 1
+}
+
+// calls lists the printed call expressions (function part only) in node, in source order.
+func (ex *factExtractor) calls(node ast.Node) []string {
+	var out []string
+	ast.Inspect(node, func(x ast.Node) bool {
+		if c, ok := x.(*ast.CallExpr); ok {
+			out = append(out, ex.str(c.Fun))
+		}
+		return true
+	})
+	return out
+}
+
+func contains(xs []string, s string) bool {
+	for _, x := range xs {
+		if x == s {
+			return true
+		}
+	}
+	return false
+}
+
+func indexOf(xs []string, s string) int {
+	for i, x := range xs {
+		if x == s {
+			return i
+		}
+	}
+	return -1
+}
+
+var timeUnits = map[string]int64{"time.Second": 1000000000, "time.Millisecond": 1000000, "time.Minute": 60000000000, "time.Hour": 3600000000000}
